@@ -237,6 +237,8 @@ type deferGuard struct {
 	// nilFlag: the condition is `cell == nil` on a captured pointer/interface cell ("nothing stored yet"), instead of a
 	// boolean flag being true
 	nilFlag bool
+	// disarmedBy: the boolean value that disarms the rollback (false for `shouldRollback`, true for `committed`)
+	disarmedBy bool
 }
 
 // deferredRollback classifies a Defer instruction: does it guarantee Rollback of this tx at function exit
@@ -284,15 +286,23 @@ func (s *txScope) deferredRollback(d *ssa.Defer) *deferGuard {
 		if b, isB := pt.Elem().Underlying().(*types.Basic); !isB || b.Kind() != types.Bool {
 			continue
 		}
-		flagFalse := core.IfEdgesWhere(cl, func(v ssa.Value) bool {
+		// either polarity: `if shouldRollback { rollback }` (disarmed by false) or `if committed { return }; rollback` (by true)
+		isFlag := func(v ssa.Value) bool {
 			u, ok := v.(*ssa.UnOp)
 			return ok && u.Op == token.MUL && u.X == ssa.Value(fv)
-		}, false)
-		if len(flagFalse) == 0 {
-			continue
 		}
-		leak := (&core.Walk{Target: core.IsExit, Stop: isRb, EdgeOK: core.Forbid(flagFalse)}).From(core.Entry(cl), nil)
-		if leak != nil {
+		disarmedBy, found := false, false
+		for _, val := range []bool{false, true} {
+			disarm := core.IfEdgesWhere(cl, isFlag, val)
+			if len(disarm) == 0 {
+				continue
+			}
+			if leak := (&core.Walk{Target: core.IsExit, Stop: isRb, EdgeOK: core.Forbid(disarm)}).From(core.Entry(cl), nil); leak == nil {
+				disarmedBy, found = val, true
+				break
+			}
+		}
+		if !found {
 			continue
 		}
 		// the closure must not write the flag
@@ -305,7 +315,7 @@ func (s *txScope) deferredRollback(d *ssa.Defer) *deferGuard {
 		if al == nil {
 			return &deferGuard{instr: d, why: "rollback flag is not a local variable"}
 		}
-		return &deferGuard{instr: d, flag: al, ok: true}
+		return &deferGuard{instr: d, flag: al, ok: true, disarmedBy: disarmedBy}
 	}
 	// conditional on a captured pointer / interface cell being nil ("the value only exists after a successful commit")
 	for _, fv := range cl.FreeVars {
@@ -529,8 +539,8 @@ func ruleTxPair(c *core.Ctx, rule string, fn *ssa.Function) int {
 					continue
 				}
 				switch {
-				case isConstBool(st.Val, true):
-				case isConstBool(st.Val, false):
+				case isConstBool(st.Val, !g.disarmedBy):
+				case isConstBool(st.Val, g.disarmedBy):
 					f := (&core.Walk{EdgeOK: core.Forbid(commitNil), Target: func(i ssa.Instruction) bool { return i == ssa.Instruction(st) }}).From(core.Entry(fn), nil)
 					if f != nil || len(commitNil) == 0 {
 						c.Violate(rule, construct, st.Pos(), "the rollback flag is cleared on a path where Commit did not return nil: a failed or skipped commit would leave the transaction open")
@@ -544,12 +554,12 @@ func ruleTxPair(c *core.Ctx, rule string, fn *ssa.Function) int {
 			// flag must be true at registration: the initial store dominates the defer
 			initTrue := false
 			for _, ref := range *g.flag.Referrers() {
-				if st, ok := ref.(*ssa.Store); ok && st.Addr == ssa.Value(g.flag) && isConstBool(st.Val, true) && core.Dominates(st, g.instr) {
+				if st, ok := ref.(*ssa.Store); ok && st.Addr == ssa.Value(g.flag) && isConstBool(st.Val, !g.disarmedBy) && core.Dominates(st, g.instr) {
 					initTrue = true
 				}
 			}
 			if !initTrue {
-				c.Violate(rule, construct, g.instr.Pos(), "rollback flag is not set to true before the deferred rollback is registered")
+				c.Violate(rule, construct, g.instr.Pos(), "the rollback flag is not in its armed state when the deferred rollback is registered")
 				flagOK = false
 			}
 		}
@@ -879,6 +889,37 @@ func ruleTxErr(c *core.Ctx, rule string, fn *ssa.Function) int {
 			dup := core.TermEdges(f, sx, func(s string, _ *core.Term) bool {
 				return s == "(db.SQLiteErr(ERR)#0.ExtendedCode == const(1555))"
 			}, true)
+			// the same test behind a boolean helper that could not be expanded (it stands under || / &&): `isDup(err)` is
+			// accepted when every result of the helper is false or the very comparison above on its parameter
+			core.Instrs(f, func(i ssa.Instruction) {
+				cl, ok := i.(*ssa.Call)
+				if !ok {
+					return
+				}
+				g := cl.Call.StaticCallee()
+				if g == nil || g.Blocks == nil || len(cl.Call.Args) != 1 || cl.Call.Args[0] != ev || len(g.Params) != 1 {
+					return
+				}
+				gx := core.NewSymx().Bind(g.Params[0], "ERR")
+				all := true
+				n := 0
+				for _, rc := range core.ReturnCases(g) {
+					if len(rc.Values) != 1 {
+						all = false
+						continue
+					}
+					n++
+					if isConstBool(rc.Values[0], false) {
+						continue
+					}
+					if gx.Of(rc.Values[0]).String() != "(db.SQLiteErr(ERR)#0.ExtendedCode == const(1555))" {
+						all = false
+					}
+				}
+				if all && n > 0 {
+					dup = append(dup, core.BoolEdges(f, cl, true)...)
+				}
+			})
 			// an error return is acceptable when it is certainly non-nil: it wraps / is the failed write's error, is a
 			// freshly built error, or a package-level sentinel error
 			derives := func(v ssa.Value) bool {
